@@ -240,7 +240,13 @@ func (e *Env) assumeLemmaQuantified(pkg *types.Package, name string) {
 		for _, t := range tr {
 			ps = append(ps, e.flatten(ctx.eval(t))...)
 		}
-		pats = append(pats, ":pattern ("+strings.Join(ps, " ")+")")
+		var pp []string
+		for _, p := range ps {
+			pp = append(pp, patternTerms(p)...)
+		}
+		if len(pp) > 0 {
+			pats = append(pats, ":pattern ("+strings.Join(pp, " ")+")")
+		}
 	}
 	e.quantDepth--
 	e.symHeaps = e.symHeaps[:len(e.symHeaps)-1]
@@ -617,8 +623,8 @@ func (e *Env) frameGoals(out *State) map[string]string {
 				for _, a := range e.frameAllowed[n] {
 					excl = append(excl, mkNot(mkEq(r, a)))
 				}
-				goals[n] = fmt.Sprintf("(forall ((%s Int)) (=> %s (= (select %s %s) (select %s %s))))", r,
-					mkAnd(append([]string{sx("<", r, e.next0)}, excl...)...), cur, r, init, r)
+				goals[n] = fmt.Sprintf("(forall ((%s Int)) (! (=> %s (= (select %s %s) (select %s %s))) :pattern ((select %s %s))))", r,
+					mkAnd(append([]string{sx("<", r, e.next0)}, excl...)...), cur, r, init, r, cur, r)
 			}
 		}
 		return goals
@@ -642,8 +648,8 @@ func (e *Env) frameGoals(out *State) map[string]string {
 			excl = append(excl, mkNot(mkEq(r, a)))
 		}
 		arr := t
-		goals[n] = fmt.Sprintf("(forall ((%s Int)) (=> %s (= (select %s %s) (select %s %s))))", r,
-			mkAnd(append([]string{sx("<", r, e.next0)}, excl...)...), arr, r, init, r)
+		goals[n] = fmt.Sprintf("(forall ((%s Int)) (! (=> %s (= (select %s %s) (select %s %s))) :pattern ((select %s %s))))", r,
+			mkAnd(append([]string{sx("<", r, e.next0)}, excl...)...), arr, r, init, r, arr, r)
 	}
 	return goals
 }
